@@ -477,8 +477,20 @@ package eval
 //@   requires [parser] (and (PARSER $p) (LEAFPARSERS $p))
 //@   dyncallees parser.parseInt parser.parseStr parser.parseConst parser.parseVariable parser.parseUnknownVariable parser.parseList.$1
 
+// C01 — name resolution order: a bare token is tried as int literal, string literal, configured constant,
+// registered variable, undefined-mode variable and list literal IN THIS ORDER (a name that is both a constant and a
+// variable is the constant); buildLeafNode calls the parsers in list order.
+//@ func parser.setLeafNodeParsers C01
+//@   requires [parser] (and (not (= $p 0)) (not (= (fld $p conf) 0)) (not (= (fld (fld $p conf) CompileOptions) 0)))
+//@   ensures [resolution-order] (let ((l (fld $p leafNodeParser))) (and (= (len l) 6)
+//@        (= (clofn (idx l 0)) (fnid parser.parseInt)) (= (clofn (idx l 1)) (fnid parser.parseStr)) (= (clofn (idx l 2)) (fnid parser.parseConst))
+//@        (= (clofn (idx l 3)) (fnid parser.parseVariable)) (= (clofn (idx l 4)) (fnid parser.parseUnknownVariable)) (= (clofn (idx l 5)) (fnid parser.parseList.$1))))
+//@   ensures [all-set] (LEAFPARSERS $p)
 //@ func parser.buildLeafNode C06 C01
 //@   requires [parser] (and (PARSER $p) (LEAFPARSERS $p))
+//@   callsite [in-list-order] (= $callee (idx (fld $p leafNodeParser) (+ $rangeindex 1)))
+//@   loop 1 (rangeindex)
+//@     exit [all-parsers-tried] (>= (+ $rangeindex 2) (rangelen))
 //@   dyncallees parser.parseInt parser.parseStr parser.parseConst parser.parseVariable parser.parseUnknownVariable parser.parseList.$1
 
 //@ func parser.parseExpression C06 C01
@@ -508,7 +520,7 @@ package eval
 //@ func parser.parseConfig C06 C02
 //@   requires [parser] (PARSER $p)
 //@   loop 2 (rangeindex)
-//@     exit [every-pair-of-the-line-processed] (>= (+ $rangeindex 1) (rangelen))
+//@     exit [every-pair-of-the-line-processed] (>= (+ $rangeindex 2) (rangelen))
 //@ func parser.parseAstTree C06 C14
 //@   requires [parser] (PARSER $p)
 //@   loop 1 (rangeindex)
